@@ -1213,10 +1213,11 @@ func (s *Session) modOfCall(c *ssa.CallCommon, li *loopInfo, cells map[*ssa.Allo
 		// ghost updates at this call site
 		return
 	}
-	if callee != nil && callee.Blocks != nil && s.canInline(callee) && depth < 4 {
+	if callee != nil && callee.Blocks != nil && callee.Pkg != nil && strings.HasPrefix(callee.Pkg.Pkg.Path(), modPath) && depth < 4 {
+		// an in-module callee without contract (inlinable or not, e.g. a helper with a loop): what it may
+		// modify is read off its body (stores to its own cells are irrelevant to the caller)
 		for _, b := range callee.Blocks {
 			for _, in := range b.Instrs {
-				// stores to the callee's own cells are irrelevant to the caller
 				s.modOfInstr(in, li, map[*ssa.Alloc]bool{}, depth+1)
 			}
 		}
